@@ -11,5 +11,7 @@ if n!=1: print("pattern count",n); sys.exit(3)
 open('/repo/'+f,'w').write(s.replace(old,new))
 PY
 rc=$?
+cp /verif/evidence/$prop.json /tmp/ev_$prop.bak 2>/dev/null
 if [ $rc -eq 0 ]; then (cd /verif && timeout 1800 ./check $prop --tier $tier | tail -5; echo "exit=${PIPESTATUS[0]}"); fi
+cp /tmp/ev_$prop.bak /verif/evidence/$prop.json 2>/dev/null; rm -f /tmp/ev_$prop.bak
 cd /repo && git checkout -- . 
